@@ -132,7 +132,7 @@ def run(prop_id, modname, jobs_fn, meta, argv=None):
             json.dump(c["replay"], open(path, "w"), indent=1, default=str)
             pr = subprocess.run([sys.executable, os.path.join(VERIF, "run_check.py"), prop_id,
                                  "--replay", path], capture_output=True, text=True, timeout=900)
-            if pr.returncode == EXIT_VIOLATION:
+            if pr.returncode == EXIT_VIOLATION and ("VIOLATION property=%s" % prop_id) in pr.stdout:
                 ok = (c, path)
                 break
             if kf is None:
